@@ -21,7 +21,9 @@
 //
 //	g := wirebridge.NewGen(rand.New(rand.NewSource(seed)))
 //	ptr := g.New(reflect.TypeOf(types.V2Transaction{}), wirebridge.Random).Interface()   // modes: Random, Zero, Max, Empty
-//	t.Fix(r, ptr)                            // = FixValue: consistent multiproof sets, valid outline entries, ...
+//	t.Fix(r, ptr)                            // = FixValue: consistent multiproof sets (incl. repeated references to one
+//	                                         //   accumulator leaf within and across transactions), valid outline entries, ...
+//	wirebridge.MakeConsistent(r, txnPtrs)    // the multiproof fixer alone; ProofShape / DuplicateRefs describe a set
 //	wirebridge.Variants[ifaceType]           // concrete types a valid interface value may hold (policies, resolutions, instructions)
 //
 // Abstract values (what TLC consumes), lock-step walk of Go value and schema line
